@@ -794,7 +794,7 @@ fn remove_frame_heap_unique() {
     remove_frame(any_heap_rc(MAX_CAP, true));
 }
 
-// @harness name=remove_frame_heap_shared props=C01,C02,C03,C05,C11 class=U tier=quick big=yes fn=Repr::remove
+// @harness name=remove_frame_heap_shared props=C01,C02,C03,C05,C11 class=U tier=thorough big=yes fn=Repr::remove
 #[kani::proof]
 #[kani::stub(alloc::alloc::alloc, v_alloc)]
 #[kani::stub(alloc::alloc::dealloc, v_dealloc)]
@@ -804,7 +804,7 @@ fn remove_frame_heap_shared() {
     remove_frame(any_heap_rc(MAX_CAP, false));
 }
 
-// @harness name=remove_frame_static props=C01,C03,C05,C09,C10 class=U tier=quick big=yes fn=Repr::remove
+// @harness name=remove_frame_static props=C01,C03,C05,C09,C10 class=U tier=thorough big=yes fn=Repr::remove
 #[kani::proof]
 #[kani::stub(alloc::alloc::alloc, v_alloc)]
 #[kani::stub(alloc::alloc::dealloc, v_dealloc)]
